@@ -158,8 +158,12 @@ theorem emitted_designates (cur ref : MPath) (cls : Name) (isInit ex ib : Bool)
       refine ⟨exactImport r cls, by simp [hx], rfl, ?_⟩
       rw [← htgt]; simp [targetOf, exactImport, hm]
     · exact ⟨r, by simp [hx], rfl, htgt⟩
+  have hpb : cur.isPrefixOf ref = false := by
+    cases h : cur.isPrefixOf ref with
+    | false => rfl
+    | true => exact absurd (List.isPrefixOf_iff_prefix.mp h) hpre
   refine ⟨{ r' with dots := r'.dots + (if isInit then 1 else 0) }, ?_, ?_⟩
-  · simp only [emitted, hr]; rw [hr']
+  · simp only [emitted, hr]; rw [hr']; simp [hpb]
   · simp only [designated]
     have ht : (if r'.isModule then r'.pkg ++ [r'.name] else r'.pkg) = ref.drop (commonLen cur ref) := ht'
     rw [ht]
@@ -174,6 +178,43 @@ theorem emitted_designates (cur ref : MPath) (cls : Name) (isInit ex ib : Bool)
       rw [if_neg (by omega), if_neg (by omega)]
       have : cur.length - 1 - (r'.dots + 0 - 1) = commonLen cur ref := by omega
       rw [this, take_dropLast _ _ hlt, hsplit]
+
+theorem commonLen_of_prefix {cur ref : MPath} (h : cur <+: ref) : commonLen cur ref = cur.length := by
+  obtain ⟨t, rfl⟩ := h
+  induction cur with
+  | nil => simp [commonLen]
+  | cons x xs ih => simp [commonLen, ih]
+
+/-- A package file whose importee lies BELOW the package: no extra dot is added, the single dot
+of `relative` addresses the package itself, and the import designates the importee — for the
+plain and for the exact form. -/
+theorem emitted_designates_init_descendant (cur ref : MPath) (cls : Name) (ex ib : Bool)
+    (hn : NoEmptyName ref) (hcur : cur ≠ []) (hpre : cur <+: ref) (hne : cur ≠ ref) :
+    ∃ r, emitted cur true ex ib ref cls = some r ∧ designated cur true r = some ref := by
+  obtain ⟨r, hr, hdots, htgt⟩ := relative_shape cur ref cls hne hn
+  have hc := commonLen_of_prefix hpre
+  have hsplit := ref_split cur ref
+  rw [hc] at hdots htgt hsplit
+  simp only [Nat.sub_self, if_true] at hdots
+  rw [List.take_length] at hsplit
+  have hnp : ¬ ref <+: cur := by
+    intro h
+    exact hne (List.IsPrefix.eq_of_length_le hpre (h.length_le))
+  have hm := relative_isModule cur ref cls r hr hn hnp
+  obtain ⟨r', hr', hd', ht'⟩ : ∃ r', (if ex || ib then exactImport r cls else r) = r' ∧
+      r'.dots = 1 ∧ targetOf r' = ref.drop cur.length := by
+    by_cases hx : (ex || ib) = true
+    · refine ⟨exactImport r cls, by simp [hx], hdots, ?_⟩
+      rw [← htgt]; simp [targetOf, exactImport, hm]
+    · exact ⟨r, by simp [hx], hdots, htgt⟩
+  have hpb : cur.isPrefixOf ref = true := List.isPrefixOf_iff_prefix.mpr hpre
+  have hce : cur.isEmpty = false := by cases cur <;> simp at hcur ⊢
+  refine ⟨{ r' with dots := r'.dots + 0 }, ?_, ?_⟩
+  · simp only [emitted, hr]; rw [hr']; simp [hpb, hce]
+  · simp only [designated]
+    have ht : (if r'.isModule then r'.pkg ++ [r'.name] else r'.pkg) = ref.drop cur.length := ht'
+    rw [ht]
+    simp [resolveFrom, packageOf, hd', hsplit]
 
 /-- The root `__init__.py` is written with `init = False` although it is a package file; one dot
 then designates the root package itself, so every import from the root resolves. -/
